@@ -7,6 +7,9 @@ The harness chooses a schedule of external events
     F<a>:<m>  feed m more frames from address a (one feed_data call)
     R         the oldest pending device-class import completes (or raises: address without a class)
     G<a>      start a task awaiting protocol.get(<name of address a>)
+    C         the connection is lost (end of stream on the current reader: the producer schedules
+              connection_lost()) and re-established at once from an on_connection_lost callback with a
+              new reader / writer, as Connection._reconnect does; later frames arrive on the new reader
 runs the loop to quiescence after each one and records a snapshot
     held created setups published dispatched handled gets
 (objects are named by order of first appearance).  The Lean driver replays the same schedule
@@ -72,6 +75,8 @@ class Canon:
 def parse_ev(ev):
     if ev == "R":
         return ("R",)
+    if ev == "C":
+        return ("C",)
     if ev[0] == "G":
         return ("G", int(ev[1:]))
     a, m = ev[1:].split(":")
@@ -115,9 +120,16 @@ def run_case(case):
 
         for a in ADDRS:
             subscribe(a)
-        reader = asyncio.StreamReader()
-        writer = pipefake.FakeWriter()
-        loop.call_soon(proto.connection_established, reader, writer)
+        conn = dict(reader=asyncio.StreamReader(), established=1, lost=0)
+
+        async def reconnect():
+            conn["lost"] += 1
+            conn["reader"] = asyncio.StreamReader()
+            proto.connection_established(conn["reader"], pipefake.FakeWriter())
+            conn["established"] += 1
+
+        proto.on_connection_lost.add(reconnect)
+        loop.call_soon(proto.connection_established, conn["reader"], pipefake.FakeWriter())
         loop.settle()
         fed = []      # address of every frame fed
         asked = []    # address of every get()
@@ -146,8 +158,10 @@ def run_case(case):
             e = parse_ev(ev)
             if e[0] == "F":
                 _, a, m = e
-                reader.feed_data(b"".join(frame_bytes(len(fed) + i, a) for i in range(m)))
+                conn["reader"].feed_data(b"".join(frame_bytes(len(fed) + i, a) for i in range(m)))
                 fed.extend([a] * m)
+            elif e[0] == "C":
+                conn["reader"].feed_eof()
             elif e[0] == "R":
                 if not loop.held:
                     return False
@@ -169,7 +183,7 @@ def run_case(case):
         extra = dict(
             unfinished=proto._queues.read._unfinished_tasks,
             consumers_alive=sum(1 for t in proto.tasks if t.get_name().startswith("frame_consumer") and not t.done()),
-            fa=fed, ga=asked,
+            fa=fed, ga=asked, connections=conn["established"], losses=conn["lost"],
             setup_objects=[canon(d) for d in setups],
         )
     return effective, snaps, extra
@@ -253,6 +267,12 @@ def mixed_schedules(max_frames=3):
                                 yield list(ev)
 
 
+def with_reconnects(ev, positions=None):
+    """the schedule with a reconnect inserted at every (or the given) position of its timeline"""
+    for pos in (range(len(ev) + 1) if positions is None else positions):
+        yield ev[:pos] + ["C"] + ev[pos:]
+
+
 def random_schedule(rng, multi=False):
     k = rng.randint(1, 4)
     comp = rng.choice(list(compositions(k)))
@@ -288,6 +308,13 @@ def evaluate(res, cases):
         res.count(f"consumers:{case['consumers']}")
         res.count(f"gets:{len(extra['ga'])}")
         res.count(f"addresses:{len(set(extra['fa']))}")
+        if "C" in eff:
+            res.count("reconnects:" + str(eff.count("C")))
+            first = eff.index("C")
+            if first < len(snaps) and snaps[first]["held"]:
+                res.count("reconnect-while-class-loading-in-flight")
+            if extra["losses"] != eff.count("C") or extra["connections"] != 1 + eff.count("C"):
+                res.fail("corr", inp, dict(losses=eff.count("C")), extra, "a reconnect event did not lose and re-establish the connection once")
         if ECONET in extra["fa"]:
             res.count("frames-from-an-address-without-device-class")
         rpos = eff.index("R") if "R" in eff else -1
@@ -321,7 +348,7 @@ def run(ctx):
     res = Result("C10")
     res.rule = ("schedule = arrangement of feed groups (1..4 frames in total, any grouping; one address, or several addresses "
                 "69 / 81 / 86 = no device class), explicit releases of the device-class imports (the rest released at the end) and "
-                "get(<name>) calls; x consumers 1..3 x protocol-level callback suspending or not. distinct = (consumers, cbsusp, "
+                "get(<name>) calls, reconnects (connection lost and re-established) at every position of the timeline; x consumers 1..3 x protocol-level callback suspending or not. distinct = (consumers, cbsusp, "
                 "effective event list); non-trivial = at least two frames or a get() in the schedule")
     cases = [parse_case(ln) for _, ln in load_corpus("C10")]
     if ctx["tier"] == "thorough":
@@ -332,6 +359,17 @@ def run(ctx):
             cases.append(dict(consumers=1 + i % 3, cbsusp=(i // 3) % 2, events=ev))
         for _ in range(3000):
             cases.append(dict(consumers=rng.randint(1, 3), cbsusp=rng.randint(0, 1), events=random_schedule(rng, multi=rng.random() < 0.7)))
+        for i, ev in enumerate(all_schedules(3, 1)):          # a reconnect at every position of the timeline
+            for ev2 in with_reconnects(ev):
+                cases.append(dict(consumers=1 + i % 3, cbsusp=i % 2, events=ev2))
+        for i, ev in enumerate(mixed_schedules(2)):
+            for ev2 in with_reconnects(ev, positions=[rng.randint(0, len(ev))]):
+                cases.append(dict(consumers=1 + i % 3, cbsusp=i % 2, events=ev2))
+        for _ in range(1000):
+            ev = random_schedule(rng, multi=rng.random() < 0.5)
+            for _ in range(rng.choice([1, 1, 2])):
+                ev.insert(rng.randint(0, len(ev)), "C")
+            cases.append(dict(consumers=rng.randint(1, 3), cbsusp=rng.randint(0, 1), events=ev))
         res.exhaustive = True
         res.extra["exhaustive_over"] = ("one address: all arrangements of feed groups of 1..4 frames x release position x 0..2 get() "
                                         "positions x consumers 1..3; several addresses: all sequences of 1..3 frames over {69,81,86} x "
@@ -347,6 +385,16 @@ def run(ctx):
             cases.append(dict(consumers=rng.randint(1, 3), cbsusp=rng.randint(0, 1), events=ev))
         for _ in range(300):
             cases.append(dict(consumers=rng.randint(1, 3), cbsusp=rng.randint(0, 1), events=random_schedule(rng, multi=rng.random() < 0.7)))
+        short = list(all_schedules(3, 1))
+        rng.shuffle(short)
+        for ev in short[:60]:                                   # a reconnect at every position of the timeline
+            for ev2 in with_reconnects(ev):
+                cases.append(dict(consumers=rng.randint(1, 3), cbsusp=rng.randint(0, 1), events=ev2))
+        for _ in range(150):
+            ev = random_schedule(rng, multi=rng.random() < 0.5)
+            for _ in range(rng.choice([1, 1, 2])):
+                ev.insert(rng.randint(0, len(ev)), "C")
+            cases.append(dict(consumers=rng.randint(1, 3), cbsusp=rng.randint(0, 1), events=ev))
     if ctx.get("max_cases"):
         cases = cases[:ctx["max_cases"]]
     evaluate(res, cases)
